@@ -69,6 +69,7 @@ type Verifier struct {
 	callNames           map[*ssa.Call]string
 	allCalls            []*ssa.Call
 	pruneChecks, pruned int
+	lazyRegs            bool
 }
 
 func (e *Engine) NewVerifier(fn *ssa.Function, fc *FuncContract) *Verifier {
@@ -250,6 +251,48 @@ func (v *Verifier) Run() (err error) {
 			st.acq = st.snapshot()
 		}
 	}
+	if v.fc != nil && v.fc.StartLoop > 0 {
+		// verify the loop (all iterations, from an arbitrary state satisfying its invariant) and what
+		// follows it; the code before the loop is not executed
+		var li *LoopInfo
+		for _, l := range fr.info.loopList {
+			if l.Ordinal == v.fc.StartLoop {
+				li = l
+			}
+		}
+		if li == nil {
+			v.fail("start_at_loop #%d: no such loop", v.fc.StartLoop)
+		}
+		v.lazyRegs = true
+		for _, b := range fn.Blocks {
+			if li.Blocks[b] {
+				continue
+			}
+			for _, ins := range b.Instrs {
+				if a, ok := ins.(*ssa.Alloc); ok && b.Dominates(li.Header) {
+					elem := derefType(a.Type())
+					if fr.info.cellable[a] {
+						fr.cells[a] = st.freshValue("pre_"+a.Comment, elem)
+						fr.regs[a] = Value{T: a.Type(), cell: &cellRef{alloc: a, off: 0, typ: elem}}
+					} else {
+						blk := st.allocTyped(elem)
+						st.storeAt(blk, IntLit(0), st.freshValue("pre_"+a.Comment, elem))
+						st.nonnil[blk.String()] = true
+						fr.regs[a] = Value{T: a.Type(), L: []*Term{blk, IntLit(0)}}
+					}
+				}
+			}
+		}
+		st.path = append(st.path, li.Header.Index)
+		v.havocLoop(st, li)
+		v.assumeLoopInv(st, li)
+		if st.loopBasePending {
+			st.loopBasePending = false
+			st.loopBase = st.snapshot()
+		}
+		v.execFrom(st, li.Header, v.firstNonPhi(li.Header))
+		return nil
+	}
 	v.enterBlock(st, nil, fn.Blocks[0])
 	return nil
 }
@@ -297,6 +340,13 @@ func (v *Verifier) enterBlock(st *State, from, to *ssa.BasicBlock) {
 		v.assertLoopInv(st, li, "entry")
 		v.havocLoop(st, li)
 		v.assumeLoopInv(st, li)
+		if len(st.pendingHavoc) > 0 {
+			for _, b := range st.pendingHavoc {
+				st.havocBlock(b)
+			}
+			st.pendingHavoc = nil
+			v.assumeLoopInv(st, li)
+		}
 		if st.loopBasePending {
 			st.loopBasePending = false
 			st.loopBase = st.snapshot()
@@ -381,6 +431,12 @@ func (v *Verifier) eval(st *State, x ssa.Value) Value {
 		return Value{T: x.Type(), L: []*Term{v.e.funcID(x)}, clo: &closureVal{fn: x}}
 	case *ssa.Builtin:
 		return Value{T: x.Type(), L: []*Term{IntLit(-1)}}
+	}
+	if v.lazyRegs && fr.depth == 0 {
+		// value computed in the skipped prefix: arbitrary
+		val := st.freshValue("pre_"+x.Name(), x.Type())
+		fr.regs[x] = val
+		return val
 	}
 	v.fail("eval: no value for %s (%T) in %s", x.Name(), x, funcKey(fr.fn))
 	return Value{}
